@@ -25,7 +25,7 @@ ASSUMPTIONS = ["mysql_common::write_lenenc_str encodes every length class and ne
 
 
 def acc(t):
-    c = T.find(t, lambda x: T.is_call(x, r"(Datelike>::(year|month|day)|Timelike>::(hour|minute|second|nanosecond)|Duration::(as_secs|subsec_micros|subsec_nanos))$"))
+    c = T.find(t, lambda x: T.is_call(x, r"(Datelike>?::(year|month|day)|Timelike>?::(hour|minute|second|nanosecond)|Duration::(as_secs|subsec_micros|subsec_nanos))$"))
     return c[1].split("::")[-1] if c is not None else None
 
 
